@@ -18,8 +18,10 @@ CHUNK = 40
 RULE = ('Four-ended topology on the simulated network: origin application '
         '-> local TCP/UNIX listener or SOCKS4/4a/5 listener of a real '
         'asyncssh client -> SSH -> real asyncssh server -> destination '
-        'application, and the mirror image for remote (tcpip-forward) '
-        'forwarding; 1-3 concurrent forwarded connections. Origin and '
+        'application, and the mirror image for remote forwarding '
+        '(tcpip-forward on fixed or server-chosen ports, '
+        'streamlocal-forward on UNIX paths); 1-3 concurrent forwarded '
+        'connections. Origin and '
         'destination run drawn programs of writes (also before the channel '
         'is confirmed), half-close, close, abort and reading pauses (slow '
         'consumer); the scheduler interleaves the four ends. Configurations: '
@@ -46,7 +48,7 @@ REAL = ['asyncssh forward.py, listener.py, socks.py, connection/channel '
         'forwarding paths of both endpoints']
 STUB = ['event loop + clock', 'TCP/UNIX sockets and listeners', 'DNS',
         'executor', 'origin and destination applications']
-PROBES = ['dynamic_listen_ports', 'mode_local', 'mode_socks', 'mode_remote', 'mode_local_unix',
+PROBES = ['dynamic_listen_ports', 'mode_remote_unix', 'mode_local', 'mode_socks', 'mode_remote', 'mode_local_unix',
           'early_data', 'half_close', 'origin_abort', 'dest_close_first',
           'slow_consumer', 'refused_by_policy', 'ssh_cut',
           'origin_gone_during_open', 'multi_conn', 'listen_refused']
@@ -79,8 +81,8 @@ def gen_prog(rng, allow_early):
 
 
 def gen_plan(rng):
-    mode = rng.weighted([('local', 40), ('socks', 20), ('remote', 25),
-                         ('local_unix', 15)])
+    mode = rng.weighted([('local', 38), ('socks', 20), ('remote', 22),
+                         ('local_unix', 12), ('remote_unix', 8)])
     conns = []
 
     for _ in range(rng.weighted([(1, 6), (2, 3), (3, 1)])):
@@ -124,7 +126,8 @@ def gen_plan(rng):
 
 def valid_plan(plan):
     try:
-        if plan['mode'] not in ('local', 'socks', 'remote', 'local_unix'):
+        if plan['mode'] not in ('local', 'socks', 'remote', 'local_unix',
+                                'remote_unix'):
             return False
 
         for c in plan['conns']:
@@ -360,6 +363,10 @@ class FwdServer(RecServer):
         self.listen_requests.append((listen_host, listen_port))
         return not self.plan['listen_refused']
 
+    def unix_server_requested(self, listen_path):
+        self.listen_requests.append((listen_path, 0))
+        return not self.plan['listen_refused']
+
 
 def permitted(plan, dest_idx, socks_ver=5):
     """Reference permission model (DESIGN.md A.8)"""
@@ -400,7 +407,7 @@ def run_plan(plan, sched_seed=None, sched_replay=None):
     owners = {'s': None}
     res = {'listener_error': None, 'conn': None, 'listener': None}
     wire = []
-    remote = mode == 'remote'
+    remote = mode in ('remote', 'remote_unix')
 
     if plan['cut']:
         c = plan['cut']
@@ -450,12 +457,12 @@ def run_plan(plan, sched_seed=None, sched_replay=None):
             **server_opts(window=plan['window']))
 
         # destination applications
-        if remote:
+        if mode == 'remote':
             # remote forwarding delivers to destinations near the client
             tsrv = [await loop.create_server(target_factory(i),
                                              ['10.0.0.5', '10.0.0.6'][i],
                                              DESTS[i][1]) for i in (0, 1)]
-        elif mode == 'local_unix':
+        elif mode in ('local_unix', 'remote_unix'):
             tsrv = [await loop.create_unix_server(target_factory(i),
                                                   '/dest%d.sock' % i)
                     for i in (0, 1)]
@@ -489,6 +496,10 @@ def run_plan(plan, sched_seed=None, sched_replay=None):
                 for i in (0, 1):
                     listeners[i] = await conn.forward_local_path(
                         '/listen%d.sock' % i, '/dest%d.sock' % i)
+            elif mode == 'remote_unix':
+                for i in (0, 1):
+                    listeners[i] = await conn.forward_remote_path(
+                        '/rlisten%d.sock' % i, '/dest%d.sock' % i)
             else:
                 for i in (0, 1):
                     # dyn_ports: the server picks the ports; both listeners
@@ -536,6 +547,9 @@ def run_plan(plan, sched_seed=None, sched_replay=None):
                 elif mode == 'local_unix':
                     await loop.create_unix_connection(
                         lambda: e, '/listen%d.sock' % didx)
+                elif mode == 'remote_unix':
+                    await loop.create_unix_connection(
+                        lambda: e, '/rlisten%d.sock' % didx)
                 else:
                     await loop.create_connection(
                         lambda: e, '127.0.0.1',
